@@ -1,13 +1,16 @@
 (* C11 model driver: the "fini" cases of harness/c10_tls_unit.c over the extracted
    Tls/TlsTreeModel.v + Tls/TlsDestroyModel.v.
-     fini    DT NS (k v)*NS   the walk of the current source
-     finiold DT NS (k v)*NS   the walk as it was before commit 90cf288 (every cell past the table
-                              holds a destructor, like the harness' guard cells)
+     variant <tagged> <locked>   model variant (generation tags or not), probed by the check
+     fini    DT NS (k v)*NS      the walk of the current source
+     finiold DT NS (k v)*NS      the walk as it was before commit 90cf288 (every cell past the table
+                                 holds a destructor, like the harness' guard cells)
+     finib   DT N op*N           op = s k v | b k : stores interleaved with generation bumps of key k
+                                 (what a delete + create of the index does to the key table)
    output: "calls k:v ... | frees H<id> ... | mallocs n"   (a call through a cell past the table: oob:v) *)
 module T = TlsTreeModel
 module D = TlsDestroyModel
 let zs = Zio.z_of_string and sz = Zio.string_of_z
-let iz = Zio.int_of_z
+let iz = Zio.int_of_z and zi = Zio.z_of_int
 let toks = ref []
 let rec next () = match !toks with
   | t :: r -> toks := r; t
@@ -16,8 +19,11 @@ let rec next () = match !toks with
 let nexti () = int_of_string (next ())
 let b = Buffer.create 65536
 let out s = Buffer.add_string b s
+let flush_line () = print_string (Buffer.contents b); print_newline (); Buffer.clear b
+let tagged = ref false
+let cfg () = if !tagged then T.cfg_tagged else T.cfg_plain
 
-let run_fini old =
+let run_fini old with_ops =
   let dts = next () in
   let tbl = Array.make 1024 false in
   (match dts with
@@ -27,15 +33,23 @@ let run_fini old =
                for _ = 1 to n do let k = nexti () in if k >= 0 && k < 1024 then tbl.(k) <- true done
    | _ -> failwith "bad dt");
   let dt z = let k = iz z in
-    if k >= 0 && k < 1024 then (if tbl.(k) then Zio.z_of_int 1 else BinNums.Z0)
-    else Zio.z_of_int 1 in
+    if k >= 0 && k < 1024 then (if tbl.(k) then zi 1 else BinNums.Z0)
+    else zi 1 in
+  let kg = Array.make 1024 0 in
+  let kgf z = let k = iz z in if k >= 0 && k < 1024 then zi kg.(k) else BinNums.Z0 in
   let ns = nexti () in
   let t = ref T.empty and bad = ref false in
   for _ = 1 to ns do
-    let k = zs (next ()) in let v = zs (next ()) in
-    if not !bad then (match T.set !t k v with Some (t', _) -> t := t' | None -> bad := true)
+    let isset = if with_ops then (let o = next () in o.[0] = 's') else true in
+    if isset then begin
+      let k = zs (next ()) in let v = zs (next ()) in
+      if not !bad then (match T.set (cfg ()) kgf !t k v with Some (t', _) -> t := t' | None -> bad := true)
+    end else begin
+      let k = nexti () in
+      if !tagged && k >= 0 && k < 1024 then kg.(k) <- (kg.(k) + 1) land 0xFFFFFFFF
+    end
   done;
-  (match (if !bad then None else D.fini old dt !t) with
+  (match (if !bad then None else D.fini old (cfg ()) dt kgf !t) with
    | None -> out "ASSERT"
    | Some evs ->
       out "calls";
@@ -46,15 +60,18 @@ let run_fini old =
       out " | frees";
       Stdlib.List.iter (function T.Heap i -> out (" H" ^ sz i) | T.Pool o -> out (" P" ^ sz o)) (D.frees_of evs);
       out (" | mallocs " ^ sz (!t).T.nheap));
-  print_string (Buffer.contents b); print_newline (); Buffer.clear b
+  flush_line ()
 
 let () =
   try while true do
     let op = next () in
     (match op with
-     | "consts" -> out "consts"; Stdlib.List.iter (fun z -> out (" " ^ sz z)) T.consts;
-                   print_string (Buffer.contents b); print_newline (); Buffer.clear b
-     | "fini" -> run_fini false
-     | "finiold" -> run_fini true
+     | "variant" ->
+        tagged := (nexti () <> 0); let l = nexti () in
+        out (Printf.sprintf "variant %d %d" (if !tagged then 1 else 0) l); flush_line ()
+     | "consts" -> out "consts"; Stdlib.List.iter (fun z -> out (" " ^ sz z)) (T.consts (cfg ())); flush_line ()
+     | "fini" -> run_fini false false
+     | "finiold" -> run_fini true false
+     | "finib" -> run_fini false true
      | _ -> failwith ("bad op " ^ op))
   done with End_of_file -> ()
